@@ -3783,7 +3783,8 @@ class Output:
             self.comma_sep,
         )
         # Instance, delays and times are more rare - if unset don't include.
-        if self.inst_in or self.inst_out or self.params or self.delay or self.times != -1:
+        # A delay of -0.0 is falsy, but is exported as "-0", so compare its text.
+        if self.inst_in or self.inst_out or self.params or str(self.delay) not in ('0', '0.0') or self.times != -1:
             return (
                 *basic,
                 intern(self.inst_out) if self.inst_out is not None else None,
